@@ -5,6 +5,7 @@ import (
 	"go/ast"
 	"go/token"
 	"go/types"
+	"sort"
 	"strings"
 
 	"golang.org/x/tools/go/packages"
@@ -1110,6 +1111,289 @@ func (c *Ctx) cmpTotal(rule string, funcs []*FuncInfo, clause string) (n, nviol 
 				c.Violation(rule, key, call.Pos(), why).Clause = clause
 			default:
 				c.Note(rule, key, call.Pos(), "comparator of a shape the rule does not classify; assumed to be a strict weak order")
+			}
+		}
+	}
+	return
+}
+
+// ---------------------------------------------------------------------------------------------
+// OPTVAR-LOOP: the storage of an option (a package-level variable bound to a flag) is not
+// overwritten, inside a loop over the input items, with a value computed from the current item:
+// the option the user gave would then apply to the first item only and a by-product of item k to
+// the items after it.
+func (c *Ctx) optVarLoop(rule string, clause string) (nLoops, nviol int) {
+	p := c.Pkg("cmd")
+	if p == nil {
+		return
+	}
+	regs, _ := c.collectFlagRegs()
+	isOpt := map[types.Object]string{}
+	for _, r := range regs {
+		if r.vobj != nil {
+			isOpt[r.vobj] = r.flag
+		}
+	}
+	info := p.TypesInfo
+	for _, f := range p.Syntax {
+		walkStack(f, func(m ast.Node, stack []ast.Node) bool {
+			var body *ast.BlockStmt
+			var items []types.Object
+			switch l := m.(type) {
+			case *ast.RangeStmt:
+				body = l.Body
+				for _, e := range []ast.Expr{l.Key, l.Value} {
+					if e != nil {
+						if o := identObj(info, e); o != nil {
+							items = append(items, o)
+						}
+					}
+				}
+			case *ast.ForStmt:
+				body = l.Body
+			default:
+				return true
+			}
+			nLoops++
+			derived := map[types.Object]bool{}
+			for _, o := range items {
+				derived[o] = true
+			}
+			inner := declaredIn(info, body)
+			mentionsDerived := func(n ast.Node) bool {
+				found := false
+				ast.Inspect(n, func(q ast.Node) bool {
+					if id, ok := q.(*ast.Ident); ok && derived[identObj(info, id)] {
+						found = true
+					}
+					return !found
+				})
+				return found
+			}
+			for changed := true; changed; {
+				changed = false
+				ast.Inspect(body, func(q ast.Node) bool {
+					if as, ok := q.(*ast.AssignStmt); ok {
+						for _, r := range as.Rhs {
+							if mentionsDerived(r) {
+								for _, l := range as.Lhs {
+									if o := identObj(info, l); o != nil && inner[o] && !derived[o] {
+										derived[o] = true
+										changed = true
+									}
+								}
+							}
+						}
+					}
+					return true
+				})
+			}
+			walkStack(body, func(q ast.Node, st2 []ast.Node) bool {
+				var lhs []ast.Expr
+				var rhs []ast.Expr
+				switch s := q.(type) {
+				case *ast.AssignStmt:
+					lhs, rhs = s.Lhs, s.Rhs
+				case *ast.IncDecStmt:
+					lhs = []ast.Expr{s.X}
+				default:
+					return true
+				}
+				for i, l := range lhs {
+					o := identObj(info, l)
+					flag, ok := isOpt[o]
+					if !ok {
+						continue
+					}
+					if as, isAs := q.(*ast.AssignStmt); isAs && as.Tok == token.DEFINE && info.Defs[unparen(l).(*ast.Ident)] != nil {
+						continue
+					}
+					dep := false
+					if len(rhs) == len(lhs) {
+						dep = mentionsDerived(rhs[i])
+					} else {
+						for _, r := range rhs {
+							dep = dep || mentionsDerived(r)
+						}
+					}
+					// the conditions under which the store happens
+					for _, a := range st2 {
+						if is, ok := a.(*ast.IfStmt); ok && nodeContains(is.Body, q.Pos()) {
+							if mentionsDerived(is.Cond) || (is.Init != nil && mentionsDerived(is.Init)) {
+								dep = true
+							}
+						}
+					}
+					key := fmt.Sprintf("%s/--%s", c.enclosingFuncName(info, append(append([]ast.Node{}, stack...), st2...)), flag)
+					if dep {
+						nviol++
+						c.Violation(rule, key, q.Pos(), fmt.Sprintf("the storage of option --%s (`%s`) is overwritten inside the loop over the input with a value that depends on the current item: the items after it are processed with that by-product instead of the option", flag, o.Name())).Clause = clause
+					} else {
+						c.OK(rule, key, q.Pos(), "option storage normalised in a loop with a value that does not depend on the current item")
+					}
+				}
+				return true
+			})
+			return true
+		})
+	}
+	c.Trivial(rule, "scan", token.NoPos, fmt.Sprintf("%d loops of package cmd examined", nLoops))
+	return
+}
+
+// ---------------------------------------------------------------------------------------------
+// OPT-OWN: a command reads the storage of its own options. The contradiction looked for: the run
+// function of command X reads the storage of an option registered by other commands only (not X,
+// not an ancestor of X), while X registers an option of the same type whose storage nothing in the
+// package ever reads. Then the option the user passes to X is ignored and another command's
+// default decides in its place ("wrong variable of the right type").
+func (c *Ctx) optOwn(rule string, clause string) (nCmds, nviol int) {
+	p := c.Pkg("cmd")
+	if p == nil {
+		return
+	}
+	info := p.TypesInfo
+	regs, _ := c.collectFlagRegs()
+	own := map[string]map[types.Object]*flagReg{} // command variable -> storages it registers
+	anyReg := map[types.Object][]*flagReg{}
+	for _, r := range regs {
+		if r.vobj == nil || r.cmdVar == "" {
+			continue
+		}
+		if own[r.cmdVar] == nil {
+			own[r.cmdVar] = map[types.Object]*flagReg{}
+		}
+		own[r.cmdVar][r.vobj] = r
+		anyReg[r.vobj] = append(anyReg[r.vobj], r)
+	}
+	// command tree
+	parent := map[string]string{}
+	for _, f := range p.Syntax {
+		ast.Inspect(f, func(m ast.Node) bool {
+			call, ok := m.(*ast.CallExpr)
+			if !ok {
+				return true
+			}
+			sel, ok := unparen(call.Fun).(*ast.SelectorExpr)
+			if !ok || sel.Sel.Name != "AddCommand" {
+				return true
+			}
+			for _, a := range call.Args {
+				parent[types.ExprString(a)] = types.ExprString(sel.X)
+			}
+			return true
+		})
+	}
+	// reads of option storage anywhere in the package (a read = any use that is not `&v` given to a registrar and not a pure assignment target)
+	readAnywhere := map[types.Object]bool{}
+	for _, f := range p.Syntax {
+		walkStack(f, func(m ast.Node, stack []ast.Node) bool {
+			id, ok := m.(*ast.Ident)
+			if !ok {
+				return true
+			}
+			o := info.Uses[id]
+			if o == nil || anyReg[o] == nil {
+				return true
+			}
+			if len(stack) >= 1 {
+				if u, ok := stack[len(stack)-1].(*ast.UnaryExpr); ok && u.Op == token.AND {
+					return true // address given to the registrar
+				}
+				if as, ok := stack[len(stack)-1].(*ast.AssignStmt); ok && as.Tok == token.ASSIGN {
+					for _, l := range as.Lhs {
+						if l == ast.Expr(id) {
+							return true
+						}
+					}
+				}
+			}
+			readAnywhere[o] = true
+			return true
+		})
+	}
+	// run functions of each command literal
+	for _, f := range p.Syntax {
+		for _, d := range f.Decls {
+			gd, ok := d.(*ast.GenDecl)
+			if !ok {
+				continue
+			}
+			for _, sp := range gd.Specs {
+				vs, ok := sp.(*ast.ValueSpec)
+				if !ok || len(vs.Names) != 1 || len(vs.Values) != 1 {
+					continue
+				}
+				cmdVar := vs.Names[0].Name
+				var lit *ast.CompositeLit
+				if u, ok := unparen(vs.Values[0]).(*ast.UnaryExpr); ok && u.Op == token.AND {
+					lit, _ = unparen(u.X).(*ast.CompositeLit)
+				}
+				if lit == nil {
+					continue
+				}
+				if t := info.TypeOf(lit); t == nil || !strings.HasSuffix(t.String(), "cobra.Command") {
+					continue
+				}
+				nCmds++
+				mine := map[types.Object]bool{}
+				for a := cmdVar; a != ""; a = parent[a] {
+					for o := range own[a] {
+						mine[o] = true
+					}
+					if len(mine) > 10000 {
+						break
+					}
+				}
+				foreign := map[types.Object]token.Pos{}
+				for _, el := range lit.Elts {
+					kv, ok := el.(*ast.KeyValueExpr)
+					if !ok {
+						continue
+					}
+					k, _ := kv.Key.(*ast.Ident)
+					if k == nil || !(strings.HasSuffix(k.Name, "Run") || strings.HasSuffix(k.Name, "RunE")) {
+						continue
+					}
+					fl, ok := unparen(kv.Value).(*ast.FuncLit)
+					if !ok {
+						continue
+					}
+					ast.Inspect(fl.Body, func(q ast.Node) bool {
+						if id, ok := q.(*ast.Ident); ok {
+							if o := info.Uses[id]; o != nil && anyReg[o] != nil && !mine[o] {
+								if _, seen := foreign[o]; !seen {
+									foreign[o] = id.Pos()
+								}
+							}
+						}
+						return true
+					})
+				}
+				if len(foreign) == 0 {
+					c.OK(rule, cmdVar, lit.Pos(), "the run function reads only options registered by the command or its ancestors")
+					continue
+				}
+				// a dead own option of the same type?
+				reported := false
+				for fo, pos := range foreign {
+					for o, r := range own[cmdVar] {
+						if !readAnywhere[o] && types.Identical(o.Type(), fo.Type()) {
+							nviol++
+							reported = true
+							other := anyReg[fo][0]
+							c.Violation(rule, cmdVar+"/--"+r.flag, pos, fmt.Sprintf("%s reads `%s`, the storage of --%s of %s, which %s does not register, while the storage `%s` of its own option --%s is never read: the option given to this command is ignored and another command's default decides", cmdVar, fo.Name(), other.flag, other.cmdVar, cmdVar, o.Name(), r.flag)).Clause = clause
+						}
+					}
+				}
+				if !reported {
+					var names []string
+					for fo := range foreign {
+						names = append(names, fo.Name())
+					}
+					sort.Strings(names)
+					c.Note(rule, cmdVar, lit.Pos(), cmdVar+" reads option storage registered by other commands only ("+strings.Join(names, ", ")+"): it sees their registered defaults; no option of its own is left unread, so nothing the user passes is ignored")
+				}
 			}
 		}
 	}
